@@ -561,3 +561,11 @@ func (vc *VC) constArray(ez T) T {
 	}
 	return T{name, as}
 }
+
+func (vc *VC) declareSqrt() {
+	if vc.declSet["f:real.sqrt"] {
+		return
+	}
+	vc.ufun("real.sqrt", []Sort{SReal}, SReal)
+	vc.axiom("(forall ((x Real)) (! (=> (>= x 0.0) (and (>= (real.sqrt x) 0.0) (= (* (real.sqrt x) (real.sqrt x)) x))) :pattern ((real.sqrt x))))")
+}
